@@ -662,6 +662,12 @@ func (s *WeatherDataShared) replaceMissingValues(yrz int, noneValue float64) {
 					s.SUND[nextYear][nextIndex] != noneValue {
 					s.SUND[y][index] = (s.SUND[prevYear][prevIndex] + s.SUND[nextYear][nextIndex]) / 2
 				}
+
+				if s.ETNULL[y][index] == noneValue &&
+					s.ETNULL[prevYear][prevIndex] != noneValue &&
+					s.ETNULL[nextYear][nextIndex] != noneValue {
+					s.ETNULL[y][index] = (s.ETNULL[prevYear][prevIndex] + s.ETNULL[nextYear][nextIndex]) / 2
+				}
 			} else {
 				if s.TMP[y][index] == noneValue {
 					s.TMP[y][index] = 0
@@ -671,6 +677,9 @@ func (s *WeatherDataShared) replaceMissingValues(yrz int, noneValue float64) {
 				}
 				if s.SUND[y][index] == noneValue {
 					s.SUND[y][index] = 0
+				}
+				if s.ETNULL[y][index] == noneValue {
+					s.ETNULL[y][index] = 0
 				}
 			}
 			if s.SUND[y][index] == noneValue {
